@@ -289,8 +289,18 @@ class DefaultRealizationFilter(RealizationFilter):
         failed_realizations = np.isnan(constraints[..., 0])
         constraints = np.nan_to_num(constraints[..., self._filter_options.sort])
         assert self._enopt_config.nonlinear_constraints is not None
+        # The worst realizations are those that violate the bounds most, or
+        # are closest to violating them: the largest values for upper bounds,
+        # the smallest for lower bounds, the largest distance for equalities.
+        lower_bound = self._enopt_config.nonlinear_constraints.lower_bounds[
+            self._filter_options.sort
+        ]
+        upper_bound = self._enopt_config.nonlinear_constraints.upper_bounds[
+            self._filter_options.sort
+        ]
+        badness = np.maximum(lower_bound - constraints, constraints - upper_bound)
         return _get_cvar_weights_from_percentile(
-            -constraints, failed_realizations, self._filter_options.percentile
+            -badness, failed_realizations, self._filter_options.percentile
         )
 
 
